@@ -20,7 +20,6 @@ import common as C
 from common import f2h, h2f, vec2p
 
 EPS = 2.0 ** -52
-KEY_MASKED = 'C09-apply-after-apply_masked-stored-rho-overwritten'
 
 
 # ---------------------------------------------------------------- generation
@@ -190,7 +189,8 @@ def random_sequence(rng, L, masked):
 def gen_ops(rng, n_lines):
     thorough = n_lines > 100000
     ops = small_sequences(rng, 5 if thorough else 3)
-    # the §7-I scenario, always present: partial-J apply_masked followed by apply (exact regime)
+    # regression scenario of the repaired §7-I defect (known-findings: fixed), always present:
+    # partial-J apply_masked followed by apply (exact regime)
     ops += ['new 2 2 3cb0000000000000 3970000000000000 3ff0000000000000 0000000000000000 1 1',
             f'usy 0 {f2h(0.0)} {vec2p([1.0, 1.0])} {vec2p([1.0, 2.0])}',
             f'app {f2h(-1.0)} {vec2p([1.0, 0.0])}',
@@ -383,11 +383,9 @@ def check_tail(st, o):
 
 def push(st, s, y):
     st['hist'].append((s, y))
-    st['taint'].append(False)
     m = st['P']['m']
     if len(st['hist']) > m:
         del st['hist'][0]
-        del st['taint'][0]
     st['ver'] += 1
 
 
@@ -405,7 +403,7 @@ def monitor(op, out, st):
         if out == 'exception':
             return 'constructor threw for memory ≥ 1'
         st.clear()
-        st.update(P=P, hist=[], taint=[], ver=0, cache={})
+        st.update(P=P, hist=[], ver=0, cache={}, masked=False)
         o = T(out); o.tok()
         if o.tok() != '|':
             return 'malformed output'
@@ -437,7 +435,7 @@ def monitor(op, out, st):
     if kind == 'reset' or kind == 'resize':
         if kind == 'resize':
             P['n'] = t.nat()
-        st['hist'].clear(); st['taint'].clear(); st['ver'] += 1
+        st['hist'].clear(); st['ver'] += 1
         o.tok()
         return check_tail(st, o)
     if kind == 'scaley':
@@ -455,9 +453,10 @@ def monitor(op, out, st):
                 return (f'stored pair #{k} (oldest first) is not the {k}-th of the most recent '
                         f'{len(st["hist"])} accepted pairs: s={s2} y={y2}, expected s={s} y={y}')
             ys = xdot(y, s)
-            if not st['taint'][k] and ys != 0 and math.isfinite(rho):
-                if abs(Fr(rho) * ys - 1) > Fr(1, 2 ** 44) * (1 + mag(y, s) / abs(ys)):
-                    return f'stored ρ of pair #{k} is {rho!r}, 1/⟨y,s⟩ = {float(1 / ys)!r}'
+            if ys != 0:
+                if not math.isfinite(rho) or abs(Fr(rho) * ys - 1) > Fr(1, 2 ** 44) * (1 + mag(y, s) / abs(ys)):
+                    return (f'stored ρ of pair #{k} is {rho!r}, 1/⟨y,s⟩ = {float(1 / ys)!r}'
+                            + (' — after an apply_masked call' if st.get('masked') else ''))
         if o.tok() != '|':
             return 'dump lists more pairs than were accepted'
         return check_tail(st, o)
@@ -476,7 +475,6 @@ def monitor(op, out, st):
             if [f2h(v) for v in r] != [f2h(v) for v in q]:
                 return 'apply failed but modified q'
             return None
-        tainted = any(st['taint'])
         if any(xdot(y, s) == 0 for s, y in hist):
             return None                      # forced singular pair: the dense operator is undefined
         key = st['ver']
@@ -511,8 +509,8 @@ def monitor(op, out, st):
         if bad:
             msg = (f'apply(q, γ={g!r}) ≠ dense BFGS inverse Hessian of the {len(hist)} stored pairs '
                    f'(γ₀={float(g0)!r}) applied to q: {bad}')
-            if tainted:
-                return (msg + ' — after apply_masked overwrote the stored ρ', KEY_MASKED)
+            if st.get('masked'):
+                msg += ' — after an apply_masked call on this object'
             return msg
         return None
     if kind == 'appm':
@@ -543,10 +541,7 @@ def monitor(op, out, st):
         if any(f2h(r[j]) != f2h(q[j]) for j in off):
             return f'apply_masked modified a component outside J={J}'
         decs = [accept_exact(P, s, y, 0.0, Jx) for s, y in hist]
-        # the stored ρ are now the J-restricted ones (or NaN): later `apply`s are off (§7-I)
-        for k, (d, a) in enumerate(decs):
-            if not fullJ or a or not d:
-                st['taint'][k] = True
+        st['masked'] = True      # diagnostic only: apply_masked must not change what apply computes
         if any(a for _, a in decs) or not P['fpd'] or P['mdf'] < 0:
             return None
         sub = [([s[j] for j in Jx], [y[j] for j in Jx]) for (s, y), (d, _) in zip(hist, decs) if d]
